@@ -656,7 +656,8 @@ func normConv(e string) string {
 func normIntIdentity(e string) string {
 	for changed := true; changed; {
 		changed = false
-		for _, pre := range []string{"conv<int64>(", "conv<int>("} {
+		// (time.Duration is an int64 by another name: the conversion changes the type tag only)
+		for _, pre := range []string{"conv<int64>(", "conv<int>(", "conv<time.Duration>("} {
 			for from := 0; ; {
 				i := strings.Index(e[from:], pre)
 				if i < 0 {
